@@ -364,7 +364,9 @@ func pointInPoly(pt geom.Point, path contour) int {
 func dot(u, v geom.Point) float64 { return u.X*v.X + u.Y*v.Y }
 
 // norm = length of  vector
-func norm(v geom.Point) float64 { return math.Sqrt(dot(v, v)) }
+// (math.Hypot rather than the square root of dot(v, v): the squares overflow
+// for lengths beyond 1e154 and lose everything below 1e-162)
+func norm(v geom.Point) float64 { return math.Hypot(v.X, v.Y) }
 
 // distance = norm of difference
 func d(u, v geom.Point) float64 { return norm(pointSubtract(u, v)) }
